@@ -26,6 +26,7 @@ import SqiProofs.FiatBytes5
 import SqiProofs.FpRefGen
 import SqiProofs.Fp2RefGen
 import SqiProofs.Fp2LoopsGen
+import SqiProofs.Fp2BatchGen
 
 namespace SqiProps.C07
 open SqiModel.Gf SqiProofs.GfRef SqiProofs.GfMont SqiProofs.GfFp2
@@ -677,11 +678,8 @@ theorem fp2_pow_vartime_generated_spec {p : Nat} [Fact p.Prime] {α : Type} {O :
   rw [SqiProofs.Fp2LoopsGen.fp2_pow_vartime_eq]
   exact SqiProofs.GfFp2.fp2_pow_vartime_spec h x hx ws hw
 
-/- FULL STATEMENT (not proved): `SqiGen.Fp2Loops.fp2_batched_inv O junk xs xs.length t1 t2 z inv one zero = fp2_batched_inv O xs` for every
-   batch `xs` (with `t1`, `t2`, `z` of length `xs.length`).  The whole C function IS re-extracted on every run (arrays as lists with
-   `List.set` / `List.getD`, five `loopAcc` loops with the bounds of the C text, the `fp2_copy` / `fp2_inv` glue), but only the step level
-   is proved: -/
-/-- **src/gf/ref/gfx/fp2.c, `fp2_batched_inv`, loop bodies by translation (PARTIAL: step level)**: each of the five loop bodies
+/- Step-level statement (the whole-function equality is `fp2_batched_inv_generated_eq_model` below): -/
+/-- **src/gf/ref/gfx/fp2.c, `fp2_batched_inv`, loop bodies by translation (step level)**: each of the five loop bodies
     re-extracted from the C text by tools/translate/fp2loops.py writes entry `i` with exactly the step of the hand model
     `fp2_batched_inv` / `fp2_batched_inv_core`: zero test + substitution by one, prefix product `t1[i-1]·x[i]`, backward chain
     `t2[i-1]·x[len-i]`, `t1[i-1]·t2[len-i-1]`, zero put back; for every operation record, every array content and every index. -/
@@ -704,6 +702,30 @@ theorem fp2_batched_inv_generated_steps_partial {α : Type} (O : FpOps α) (junk
 
 /-- the hypothesis `i < z.length` is met by any index inside the arrays (here `i = 1`, `len = 2`) -/
 example : (1 : Nat) < ([0, 0] : List Nat).length := by decide
+
+/-- **src/gf/ref/gfx/fp2.c, `fp2_batched_inv`, whole function by translation**: `SqiGen.Fp2Loops.fp2_batched_inv` (re-extracted from the C
+    text on every run: arrays as lists with `List.set` / `List.getD`, five `loopAcc` loops with the bounds of the C text, the
+    `fp2_copy` / `fp2_inv` glue) equals the model `fp2_batched_inv` for EVERY operation record and EVERY batch `xs` (any length, `len = xs.length`),
+    whatever the content of the scratch arrays `t1`, `t2`, `z` (of the batch length) and of the uninitialised locals. -/
+theorem fp2_batched_inv_generated_eq_model {α : Type} (O : FpOps α) (junk : Fp2 α) (xs t1u t2u : List (Fp2 α)) (zu : List Nat)
+    (invu oneu zerou : Fp2 α) (h1 : t1u.length = xs.length) (h2 : t2u.length = xs.length) (hz : zu.length = xs.length) :
+    SqiGen.Fp2Loops.fp2_batched_inv O junk xs xs.length t1u t2u zu invu oneu zerou = fp2_batched_inv O xs :=
+  SqiProofs.Fp2BatchGen.fp2_batched_inv_eq O junk xs t1u t2u zu invu oneu zerou h1 h2 hz
+
+/-- **generated `fp2_batched_inv` = element-wise inversion in `Fp[i]`** (`0⁻¹ = 0` included) for any `FpRefines` back-end, every batch
+    length: `fp2_batched_inv_spec` stated on the definition extracted from the C text. -/
+theorem fp2_batched_inv_generated_spec {p : Nat} [Fact p.Prime] {α : Type} {O : FpOps α} {dom : α → Prop} {val : α → ZMod p}
+    (h : FpRefines O p dom val) (junk : Fp2 α) (xs t1u t2u : List (Fp2 α)) (zu : List Nat) (invu oneu zerou : Fp2 α)
+    (h1 : t1u.length = xs.length) (h2 : t2u.length = xs.length) (hz : zu.length = xs.length) (hd : ∀ x ∈ xs, dom2 dom x) :
+    List.Forall₂ (fun out x => dom2 dom out ∧ val2 val out = (val2 val x)⁻¹)
+      (SqiGen.Fp2Loops.fp2_batched_inv O junk xs xs.length t1u t2u zu invu oneu zerou) xs := by
+  rw [SqiProofs.Fp2BatchGen.fp2_batched_inv_eq O junk xs t1u t2u zu invu oneu zerou h1 h2 hz]
+  exact SqiProofs.GfFp2.fp2_batched_inv_spec h xs hd
+
+/-- non-vacuity of the length hypotheses: scratch arrays of the batch length (here 2) with arbitrary content -/
+example : SqiGen.Fp2Loops.fp2_batched_inv (Ref.ops lvl1) ⟨0, 0⟩ [⟨Ref.fp_set_one lvl1, 0⟩, ⟨0, 0⟩] 2 [⟨5, 6⟩, ⟨7, 8⟩] [⟨1, 2⟩, ⟨3, 4⟩] [9, 9]
+      ⟨1, 1⟩ ⟨2, 2⟩ ⟨3, 3⟩ = fp2_batched_inv (Ref.ops lvl1) [⟨Ref.fp_set_one lvl1, 0⟩, ⟨0, 0⟩] :=
+  fp2_batched_inv_generated_eq_model (Ref.ops lvl1) _ [⟨Ref.fp_set_one lvl1, 0⟩, ⟨0, 0⟩] _ _ _ _ _ _ rfl rfl rfl
 
 /-- non-vacuity: the generated function on the lvl1 reference record, `x = 1`, a two-word exponent, garbage in `out`/`acc` -/
 example : SqiGen.Fp2Loops.fp2_pow_vartime (Ref.ops lvl1) ⟨7, 9⟩ ⟨Ref.fp_set_one lvl1, 0⟩ [5, 3] 2 ⟨11, 13⟩ =
